@@ -75,27 +75,27 @@ func pickMD(rng *rand.Rand) string { return mdPool[rng.Intn(len(mdPool))] }
 
 // ---------- a scripted RPC ----------
 type plan struct {
-	r       int
-	t       int
-	shape   string
-	method  string
-	md      string
-	opts    string
-	credmd  string
-	to      int64
-	via     string
-	cSends  []int
-	cClose  bool
-	hPre    []string // handler ops before its sends: sethdr/sendhdr/settrl with md
-	hSends  []int
-	hPost   []string // after the sends
-	hCode   int
-	hMsg    string
-	hDet    bool
-	respSz  int
-	invoke  bool // unary call made through Invoke in one go
-	reads   bool // whether the handler reads its requests
-	cReads  bool // whether the caller reads responses
+	r      int
+	t      int
+	shape  string
+	method string
+	md     string
+	opts   string
+	credmd string
+	to     int64
+	via    string
+	cSends []int
+	cClose bool
+	hPre   []string // handler ops before its sends: sethdr/sendhdr/settrl with md
+	hSends []int
+	hPost  []string // after the sends
+	hCode  int
+	hMsg   string
+	hDet   bool
+	respSz int
+	invoke bool // unary call made through Invoke in one go
+	reads  bool // whether the handler reads its requests
+	cReads bool // whether the caller reads responses
 	// progress
 	started, newIssued bool
 	ci                 int
@@ -156,6 +156,17 @@ func newPlan(rng *rand.Rand, r int, t int, opt workloadOpts) *plan {
 			p.hPost = append(p.hPost, []string{"hsethdr", "hsettrl", "hsettrl"}[rng.Intn(3)]+" md="+pickMDnn(rng))
 		}
 	}
+	if opt.badutf && r == 0 {
+		// binary metadata that is not valid UTF-8, in one of the three places metadata travels
+		switch rng.Intn(3) {
+		case 0:
+			p.md = "x-bin=%FF%FE"
+		case 1:
+			p.hPre = append(p.hPre, "hsethdr md=h-bin=%FF%FE")
+		default:
+			p.hPost = append(p.hPost, "hsettrl md=t-bin=%C3%28")
+		}
+	}
 	if opt.precancel && rng.Intn(3) == 0 {
 		p.to = []int64{1, 1000, 1000000}[rng.Intn(3)]
 	}
@@ -187,20 +198,21 @@ type workloadOpts struct {
 	maxSteps      int
 	noReader      bool // some RPC's consumer never reads (no head-of-line blocking)
 	precancel     bool // some RPCs start with a context that is (almost) expired
+	badutf        bool // one RPC carries a metadata value that is not valid UTF-8 (legal for -bin keys in gRPC)
 	openMD        string
 }
 
 type workload struct {
-	name    string
-	rng     *rand.Rand
-	opt     workloadOpts
-	plans   []*plan
-	phase   int
-	distAt  int
-	distDone bool
+	name       string
+	rng        *rand.Rand
+	opt        workloadOpts
+	plans      []*plan
+	phase      int
+	distAt     int
+	distDone   bool
 	lateIssued int
-	draining int
-	opened  bool
+	draining   int
+	opened     bool
 	stopsLeft  int
 	stopIssued bool
 }
